@@ -50,3 +50,28 @@ def sync_job(prop_define, skel, mpre=2, timeout=600, mem=12, extra=None, weight=
              "table pre-state (%d records of this and another cache + 1 router key) are symbolic" % (skel_name(skel), mpre),
         bounds={"skeleton": skel_name(skel), "pre_records": mpre, "RTR_MAX_PDU_LEN": 160, "store_increment": 2},
         stubs=SYNC_STUBS)
+
+
+ALL_TYPES = [SN, SQ, RQ, CR, V4, V6, EOD, CRESET, KEY, ERR]
+ALL_FAULTS = [T_OUT, INTR, TRERR, CLOSED, BADPDU, BADVER]
+
+
+def fam_openers():
+    """every possible first event of an exchange, alone and after a Serial Notify"""
+    return [[x] for x in ALL_TYPES + ALL_FAULTS if x not in (CR, SN)] + [[SN, x] for x in (ERR, CLOSED, CRESET, T_OUT)]
+
+
+def fam_after_cr(prefix=()):
+    """Cache Response (+ optional payload) followed by every possible event that is not payload"""
+    p = [CR] + list(prefix)
+    return [p + [x] for x in [SN, SQ, RQ, CR, CRESET, ERR] + ALL_FAULTS]
+
+
+def fam_complete(tier):
+    """complete responses: Cache Response, payload mix, End of Data"""
+    fam = [[CR, EOD], [SN, CR, EOD], [CR, SN, EOD], [CR, V4, EOD], [CR, V6, EOD], [CR, KEY, EOD],
+           [CR, V4, V4, EOD], [CR, V4, V6, EOD], [CR, V4, KEY, EOD], [CR, V6, KEY, EOD], [CR, KEY, KEY, EOD]]
+    if tier == "thorough":
+        fam += [[CR, V6, V6, EOD], [CR, V4, V4, V4, EOD], [CR, V4, V6, KEY, EOD], [CR, V6, V4, V6, EOD],
+                [CR, KEY, V4, KEY, EOD], [CR, V4, V4, V4, V4, EOD], [CR, V4, V4, V6, V6, EOD], [CR, KEY, KEY, KEY, EOD]]
+    return fam
